@@ -38,7 +38,7 @@ impl<T> SharedData<T> {
     #[track_caller]
     pub fn read(&'_ self) -> crate::verif::TracedReadGuard<'_, T> {
         let at = std::panic::Location::caller();
-        let name = std::any::type_name::<T>();
+        let name = crate::verif::lock_name(std::any::type_name::<T>(), self as *const Self as usize);
         crate::verif::lock_event(name, "r", "req", at);
         let guard: RwLockReadGuard<'_, T> = match self.inner.read() {
             Ok(guard) => guard,
@@ -56,7 +56,7 @@ impl<T> SharedData<T> {
         F: FnOnce(&T) -> Result<R, Box<dyn Error>>,
     {
         #[cfg(feature = "verif-hooks")]
-        let _verif_span = crate::verif::LockSpan::new(std::any::type_name::<T>(), "r");
+        let _verif_span = crate::verif::LockSpan::new(crate::verif::lock_name(std::any::type_name::<T>(), self as *const Self as usize), "r");
         let guard = match self.inner.read() {
             Ok(guard) => guard,
             Err(error) => error.into_inner(),
@@ -73,7 +73,7 @@ impl<T> SharedData<T> {
         F: FnOnce(&mut T) -> Result<R, Box<dyn Error>>,
     {
         #[cfg(feature = "verif-hooks")]
-        let _verif_span = crate::verif::LockSpan::new(std::any::type_name::<T>(), "w");
+        let _verif_span = crate::verif::LockSpan::new(crate::verif::lock_name(std::any::type_name::<T>(), self as *const Self as usize), "w");
         let mut guard = self.inner.write().expect("Failed to acquire write lock");
         #[cfg(feature = "verif-hooks")]
         _verif_span.acquired();
@@ -87,7 +87,7 @@ impl<T> SharedData<T> {
         F: FnOnce(&mut T) -> (),
     {
         #[cfg(feature = "verif-hooks")]
-        let _verif_span = crate::verif::LockSpan::new(std::any::type_name::<T>(), "w");
+        let _verif_span = crate::verif::LockSpan::new(crate::verif::lock_name(std::any::type_name::<T>(), self as *const Self as usize), "w");
         let mut guard = self.inner.write().expect("Failed to acquire write lock");
         #[cfg(feature = "verif-hooks")]
         _verif_span.acquired();
